@@ -123,6 +123,7 @@ let run_fd (args : sexp list) : string =
 
 (* ---------- programs ---------- *)
 let names : (string, int) Hashtbl.t = Hashtbl.create 64
+let names_tbl = names
 let intern (s : string) : nat =
   let i = (match Hashtbl.find_opt names s with
            | Some i -> i
@@ -290,10 +291,68 @@ let run_prog (args : sexp list) : string =
     Buffer.contents b
   | _ -> failwith "bad prog"
 
+(* ---------- direct unification (C01) ---------- *)
+let run_unify (args : sexp list) : string =
+  match args with
+  | [L (A "vars" :: vs); L (A "prior" :: ps); u; v] ->
+    let names = List.map atom vs in
+    let idx = List.mapi (fun i n -> (n, i)) names in
+    let rec tr (t : term) : term =
+      (match t with
+       | TVar (_, true) -> t
+       | TVar (n, false) ->
+         let name = Hashtbl.fold (fun k v acc -> if v = int_of_nat n then k else acc) names_tbl "" in
+         (match List.assoc_opt name idx with Some i -> TVar (nat_of_int i, false) | None -> failwith ("unbound " ^ name))
+       | TCons (h, tl) -> TCons (tr h, tr tl)
+       | TComp (g, cs) -> let rec go = function TNil -> TNil | TMore (t, r) -> TMore (tr t, go r) in TComp (g, go cs)
+       | other -> other) in
+    let pt e = tr (parse_term e) in
+    let show t =
+      let b = Buffer.create 32 in
+      let rec sh (t : term) =
+        (match t with
+         | TVar (v, _) -> buf_add b (List.nth names (int_of_nat v))
+         | TCons (_, _) ->
+           buf_add b "(";
+           let rec go first t = (match t with
+             | TCons (h, tl) -> if not first then buf_add b " "; sh h; go false tl
+             | TEmpty -> ()
+             | other -> buf_add b " . "; sh other) in
+           go true t; buf_add b ")"
+         | TComp (tag, cs) ->
+           let name = Hashtbl.fold (fun k v acc -> if v = int_of_nat tag then k else acc) names_tbl "?" in
+           let name = if String.length name > 5 then String.sub name 5 (String.length name - 5) else name in
+           buf_add b ("{" ^ name);
+           let rec go = function TNil -> () | TMore (t, r) -> buf_add b " "; sh t; go r in
+           go cs; buf_add b "}"
+         | other -> show_term b other) in
+      sh t; Buffer.contents b in
+    let rec priors s n = function
+      | [] -> Some (s, n)
+      | L [a; b] :: r ->
+        (match unify dfuel s [] (pt a) (pt b) with
+         | UOk (s', _) -> priors s' (n + 1) r
+         | UFail -> None
+         | UOOF -> failwith "oof")
+      | _ -> failwith "bad prior" in
+    (match priors [] 0 ps with
+     | None -> "prior-fail"
+     | Some (s, n) ->
+       let (u', v') = (pt u, pt v) in
+       (match unify dfuel s [] u' v' with
+        | UFail -> "fail"
+        | UOOF -> "oof"
+        | UOk (s', _) ->
+          let ws t = (match walk_star dfuel s' t with Some w -> show w | None -> "oof") in
+          "ok " ^ ws u' ^ " " ^ ws v' ^ " (" ^
+          String.concat " " (List.mapi (fun i _ -> ws (TVar (nat_of_int i, false))) names) ^ ") " ^ string_of_int (n + 1)))
+  | _ -> failwith "bad unify case"
+
 let run_case (e : sexp) : string =
   match e with
   | L (A "fd" :: args) -> run_fd args
   | L (A "prog" :: args) -> run_prog args
+  | L (A "unify" :: args) -> run_unify args
   | _ -> failwith "unknown case kind"
 
 let () =
